@@ -2066,11 +2066,19 @@ def make_strategy(cname, letters):
         lo, hi = (1, 4) if cname == "Tensor" else (3, 5)
         # the pair is drawn LAST: Hypothesis' generator likes to keep a prefix of an earlier example and redraw the rest,
         # which (with the pair first) concentrated the budget on a few pairs and left others unvisited
+        def finish(d):
+            # Hypothesis over-represents the first element of sampled_from and re-uses earlier draws; rotating the sampled
+            # pair by the (near uniform) seeds flattens the per-pair histogram.  Still a pure function of the draws.
+            d = dict(d)
+            i = ex.index(d["pair"][1])
+            d["pair"] = [cname, ex[(i + d["seed"] + d["pseed"]) % len(ex)]]
+            return d
+
         return st.fixed_dictionaries({
             "seed": AR.seeds, "pseed": st.integers(0, 10 ** 6),
             "n": (st.sampled_from([3, 2, 4, 3, 1, 4]) if cname == "Tensor" else st.integers(lo, hi)), "geom": st.sampled_from(GEOMS), "dtype": st.sampled_from(["float64", "complex128"]),
             "exp": st.sampled_from([0.0, 0.0, 1.0, -2.0]), "view": st.booleans(),
-            "pair": st.sampled_from(ex).map(lambda n: [cname, n])})
+            "pair": st.sampled_from(ex).map(lambda n: [cname, n])}).map(finish)
     return strat
 
 
